@@ -43,7 +43,8 @@ CLAIMS = {
            'with running stats and no trainable parameter); make_private succeeds only for valid training-mode trees and the model\'s own parameters; validate(fix t) = 0 for every training-mode '
            'tree and fixer option; fix is the identity on trees without visited fixable layers. Real ModuleValidator / GradSampleModule / PrivacyEngine are run on generated trees (nested containers, '
            'replaceable roots, frozen / eval / affine / track flags, fixer keyword options): acceptance vs a behavioural probe of every layer (row independence, buffer updates), argument '
-           'mutation, object sharing, parameter preservation, replacement set, LSTM / MHA replacement equivalence; error counts and replacement counts are compared with the generated model.'),
+           'mutation, object sharing, parameter preservation, replacement set, LSTM / MHA replacement equivalence; error counts and replacement counts are compared with the generated model; '
+           'models with nn.GRU / nn.RNN / nn.LSTM are probed for "accepted implies trainable" (two recorded findings: GRU and RNN are accepted but the first DP step raises).'),
  },
  'C19': {
   'technique': 'Coq proof on an attribute/hook ledger whose write- and remove-lists are regenerated from the grad_sample package (written subset of removed; unwrap restores the ledger for every activity sequence); real wrap/train/unwrap runs with before/after object snapshots',
